@@ -56,6 +56,29 @@ func NewBatch(workDir string, c *desc.Case, m *gen.Meta) (*Batch, error) {
 		return nil, fmt.Errorf("work dir %s must be inside %s", abs, HarnessRoot)
 	}
 	b := &Batch{Dir: abs, ImportBase: "verifharness/" + filepath.ToSlash(rel), Case: c, Meta: m}
+	c.Request.ImportBase = b.ImportBase
+	// dependency files with a Go package of their own: the generated code names them by package name; the import path comes
+	// from import_path_overrides (README). A case that already carries the entry keeps it (variants of a batch are run in other
+	// directories and must produce the same text; replays and twins that are compiled are relocated by relocatePackage first).
+	if c.Yaml != nil {
+		for _, d := range c.Request.Deps {
+			if d.GoPackage == "" {
+				continue
+			}
+			found := false
+			for i := range c.Yaml.ImportPathOverrides {
+				if c.Yaml.ImportPathOverrides[i].K == d.GoPackage {
+					found = true
+					if v := c.Yaml.ImportPathOverrides[i].V; strings.HasSuffix(v, "/"+d.GoPackage) {
+						c.Request.ImportBase = strings.TrimSuffix(v, "/"+d.GoPackage)
+					}
+				}
+			}
+			if !found {
+				c.Yaml.ImportPathOverrides = append(c.Yaml.ImportPathOverrides, desc.KV{K: d.GoPackage, V: b.ImportBase + "/" + d.GoPackage})
+			}
+		}
+	}
 	b.StructPkg = c.Request.File.Package
 	b.TargetPkg = b.StructPkg
 	return b, os.MkdirAll(abs, 0o755)
